@@ -231,6 +231,53 @@ def scn_to_scenario(steps, sid, world, family, check=True):
     return {"id": sid, "world": world, "family": family, "steps": blocks + [{"op": "block"}]}
 
 
+def tlc_generate_raw(module, cfg, extra=(), timeout=1500):
+    """Runs a generation config and returns the distinct `SCN` step lists it printed (cached by spec hash)."""
+    key = sha(spec_hash(), module, cfg, " ".join(extra))
+    cache = os.path.join(WORK, "cache")
+    os.makedirs(cache, exist_ok=True)
+    path = os.path.join(cache, "raw-%s-%s.ndjson" % (module, key))
+    if not os.path.exists(path):
+        meta = os.path.join(WORK, "gen-%s-%d" % (module, os.getpid()))
+        cmd = tlc_cmd(SPEC, module, cfg, meta, os.path.join(SPEC, "lib/nat"), ["-workers", "1"] + list(extra))
+        rc, out = sh(cmd, timeout=timeout, cwd=SPEC)
+        shutil.rmtree(meta, ignore_errors=True)
+        seen = set()
+        with open(path + ".tmp", "w") as f:
+            for line in out.splitlines():
+                if not line.startswith('"SCN '):
+                    continue
+                steps = json.loads(json.loads(line)[4:])
+                k = json.dumps(steps, sort_keys=True)
+                if k in seen:
+                    continue
+                seen.add(k)
+                f.write(k + "\n")
+        if not seen:
+            raise Inconclusive("TLC generated no scenarios for %s/%s:\n%s" % (module, cfg, out[-2000:]))
+        os.rename(path + ".tmp", path)
+    return [json.loads(l) for l in open(path)]
+
+
+def run_driver_only(scenarios, tag):
+    """Runs scenarios through the driver and returns the trace records (no TLC)."""
+    rundir = os.path.join(WORK, "ref-%s-%d" % (tag, os.getpid()))
+    shutil.rmtree(rundir, ignore_errors=True)
+    os.makedirs(rundir)
+    p = os.path.join(rundir, "scn.ndjson")
+    with open(p, "w") as f:
+        for s in scenarios:
+            f.write(json.dumps(s) + "\n")
+    trace = os.path.join(rundir, "trace.ndjson")
+    rc, out = sh([os.path.join(WORK, "bin/driver"), "-scenarios", p, "-out", trace, "-work", os.path.join(rundir, "db")], timeout=3000)
+    if rc != 0:
+        shutil.rmtree(rundir, ignore_errors=True)
+        raise Inconclusive("driver failed on reference run: " + out[-1500:])
+    recs = [json.loads(l) for l in open(trace)]
+    shutil.rmtree(rundir, ignore_errors=True)
+    return recs
+
+
 def tlc_generate(module, cfg, world, family, extra=(), timeout=1500):
     """Runs a generation config and returns the list of scenarios (cached by spec hash)."""
     key = sha(spec_hash(), module, cfg, world, " ".join(extra))
